@@ -388,6 +388,20 @@ func init() {
 	register("c08.opentext", c08History)
 	register("c08.samepath", c08History)
 	register("c08.samepathraw", c08History)
+	// the queries clause: `Q:<0|1> <srv.script case with a history and queries> ## <srv.script case: the final files, the
+	// same queries>`; both halves run on a fresh real server each (harness/srv_script.go), answer `Q:<0|1> <first> ~ <second>`
+	// (the Q item - the class predicate of the open finding, computed by checks/c08.py - is echoed)
+	register("c08.query", func(line string) string {
+		parts := strings.SplitN(line, " ## ", 2)
+		if len(parts) != 2 {
+			return "BAD-CASE"
+		}
+		q := "Q:0"
+		if strings.HasPrefix(line, "Q:1 ") {
+			q = "Q:1"
+		}
+		return q + " " + legs["srv.script"](parts[0]) + " ~ " + legs["srv.script"](parts[1])
+	})
 	register("c08.one", c08One)
 	register("c08.fresh", c08Fresh)
 }
